@@ -1,12 +1,22 @@
 #!/bin/bash
 # check.sh <property id> <quick|thorough>
-# Rebuilds the harness from /repo's current working tree (hooks on, clock overlay) and runs the check.
+# Rebuilds the harness from /repo's current working tree (clock overlay, verif tag) and runs the check.
 # exit 0 = held on everything explored; 1 = VIOLATION (line printed); 3 = inconclusive / broken.
 set -uo pipefail
 ID=$1; TIER=${2:-${VERIF_TIER:-quick}}
 export GOFLAGS=-mod=mod GOPROXY=off GOSUMDB=off GOTOOLCHAIN=local
+mkdir -p /verif/build /verif/evidence
 cd /verif
 if ! scripts/build.sh >/verif/build/build-$ID.log 2>&1; then
   echo "build failed (see /verif/build/build-$ID.log)"; tail -20 /verif/build/build-$ID.log; exit 3
 fi
-exec /verif/bin/saomon check "$ID" --tier "$TIER" --seed "${VERIF_SEED:-1}"
+if [ "$ID" = C01 ]; then
+  if ! scripts/build.sh race >/verif/build/build-$ID-race.log 2>&1; then
+    echo "race build failed"; tail -20 /verif/build/build-$ID-race.log; exit 3
+  fi
+fi
+# each check works on its own copy of the binary so that a concurrent rebuild cannot disturb it
+BIN=/verif/build/saomon-$ID-$$
+cp /verif/bin/saomon $BIN
+trap 'rm -f $BIN' EXIT
+$BIN check "$ID" --tier "$TIER" --seed "${VERIF_SEED:-1}"
